@@ -282,6 +282,27 @@ def isolate_stale_factor(ctx, zr, stats):
             ", ".join(names), json.dumps(seg[-1], sort_keys=True)), files=[segf], script={"coordsim": script})
 
 
+def isolate_factor_lowered(ctx, zr, stats):
+    """Known finding mark-after-factor-lowered, on purpose (or, once fixed, the demand that it stays fixed)."""
+    script = 'ChangeFactor(1);NodeDown(1);NodeDown(2);Migrate(1,0,"cur");CheckRound(1)'
+    d, summ = P.drive(ctx, zr, "coordsim", "isolate-factor-lowered", ["-script", script, "-R", "3", "-N", "5"])
+    if summ is None:
+        ctx.skipped += 1
+        return
+    f = os.path.join(d, "t.0.ndjson")
+    consumed, mism, res = run_trace(ctx, "isolate-factor-lowered", f, 3)
+    events = V.read_ndjson(f)
+    stats["isolate_factor_lowered"] = {"mismatches": len(mism)}
+    for line, exp in mism:
+        s, seg = V.segment_of(events, line)
+        names = P.clause_names(exp)
+        sig = classify(seg, names)
+        segf = os.path.join(d, "fail-%d.ndjson" % line)
+        V.write_ndjson(segf, seg)
+        V.report_failure(ctx, sig, "factor lowered below the group size, majority of the group down: %s: %s" % (
+            ", ".join(names), json.dumps(seg[-1], sort_keys=True)), files=[segf], script={"coordsim": script})
+
+
 def run(ctx):
     zr = P.harness(ctx, ["coordsim.go"])
     quick = ctx.quick()
@@ -385,9 +406,10 @@ def run(ctx):
                                   num=num // 2, depth=depth, calm=calm, seed=sd + 60 + i))
         for i, (N, R, rset, num) in enumerate([(4, 3, [2, 3], 300), (4, 1, [1, 3], 300), (5, 2, [2, 4], 300), (6, 5, [3, 5], 200),
                                                (5, 3, [1, 3, 4], 300)]):
-            for calm in (True, False):
-                rjobs.append(dict(name="factor%d%s" % (i, "c" if calm else "w"), stage="factor-change", N=N, R=R, K=R, rset=rset,
-                                  num=num // 2, depth=depth, calm=calm, seed=sd + 70 + i))
+            # avoid (known finding mark-after-factor-lowered): at most one node down at a time in these stages
+            for half in (0, 1):
+                rjobs.append(dict(name="factor%d%s" % (i, "ab"[half]), stage="factor-change", N=N, R=R, K=R, rset=rset,
+                                  num=num // 2, depth=depth, calm=True, seed=sd + 70 + i + 10 * half))
         # the REAL rebalanceNamespace (5 s per move): few, short behaviours, many processes
         for i in range(12):
             N, R, P_ = [(3, 2, 2), (4, 2, 3), (4, 3, 2), (5, 3, 3)][i % 4]
@@ -396,6 +418,7 @@ def run(ctx):
     V.parallel(lambda j: replay_and_validate(ctx, zr, j, stats, samples), rjobs, n=8 if quick else 12)
     if not quick:
         isolate_stale_factor(ctx, zr, stats)
+        isolate_factor_lowered(ctx, zr, stats)
     if stats["segments"] == 0:
         raise V.Inconclusive("no behaviour could be replayed and validated")
     if not quick or ctx.seed % 4 == 1:
@@ -407,7 +430,7 @@ def run(ctx):
         model_runs=model_runs, spec_mutants_refuted_by=mutants, model_action_coverage=action_cov,
         events_validated=stats["events"], labels_replayed=stats["labels"],
         real_writes_by_kind=stats["writes"], real_writes_by_R=stats["by_R"], real_writes_by_stage=stats["writes_by_stage"],
-        isolate_stale_factor=stats.get("isolate_stale_factor"),
+        isolate_stale_factor=stats.get("isolate_stale_factor"), isolate_factor_lowered=stats.get("isolate_factor_lowered"),
         distinct_nontrivial=len(stats["distinct_writes"]),
         rule="distinct_nontrivial = different (R, previous record, written record) transitions the real coordinator "
              "performed and TLC accepted as guarded Mark/Add/Finish steps",
